@@ -294,7 +294,7 @@ func hasTaintKey(n *v1.Node, key string) bool {
 // apiError picks the kind of an injected Kubernetes API failure: a plain error or
 // the typed error a real API server returns.
 func (w *vWorld) apiError(api, name string, typed *apierrors.StatusError) error {
-	if w.typedAPIErrors && verifChoice("errkind_"+strconv.Itoa(w.J.Seq)+"_"+api, 2) == 1 {
+	if (w.typedAPIErrors || w.J.FailBudget > 0) && verifChoice("errkind_"+strconv.Itoa(w.J.Seq)+"_"+api, 2) == 1 {
 		return typed
 	}
 	return errors.New("injected " + api + " failure")
